@@ -442,6 +442,13 @@ func genQuiet(r *rand.Rand, sc *Scenario) {
 	p.LeaseMs = pick(r, p.HeartbeatMs/2, p.HeartbeatMs)
 	p.ApplyDelayMs, p.PersistDelayMs, p.RestoreDelayMs = 0, 0, 0
 	p.ShutdownOnRemove = false
+	if r.Intn(2) == 0 {
+		// slow log stores: an AppendEntries that carries entries is acknowledged later than a lease
+		// timeout, while heartbeats (fast path) are answered at once - everybody keeps responding
+		p.FastPath = true
+		p.StoreDelayMs = p.LeaseMs * pick(r, 11, 15, 25) / 10
+		p.Pipeline = r.Intn(2) == 0
+	}
 	sc.Quiet = true
 	sc.Family = "quiet"
 	sc.Clients = 1
@@ -500,6 +507,12 @@ func genPreVote(r *rand.Rand, sc *Scenario) {
 			// the server that will be isolated first receives the leadership through a transfer
 			sc.Steps = append(sc.Steps, Step{At: t, Act: "transfer", N: []int{iso[0]}}, Step{At: t + 3*p.ElectionMs, Act: "burst", N: []int{2}})
 			t += 4 * p.ElectionMs
+		}
+		if k == 2 && r.Intn(2) == 0 {
+			// an isolated pair with unequal logs: one of the two misses entries before both are cut off
+			// together (they keep talking to each other: the one that is behind is refused by the other)
+			sc.Steps = append(sc.Steps, Step{At: t - 2*p.HeartbeatMs, Act: "isolate", N: []int{iso[0]}}, Step{At: t - 2*p.HeartbeatMs + 5, Act: "burst", N: []int{3 + r.Intn(5)}},
+				Step{At: t - 1, Act: "burst", N: []int{1}}, Step{At: t, Act: "heal"})
 		}
 		sc.Steps = append(sc.Steps, Step{At: t, Act: "pv-isolate", N: iso})
 		t += p.ElectionMs * (1 + r.Intn(60))
@@ -592,7 +605,12 @@ func genRestore(r *rand.Rand, sc *Scenario) {
 		case 2:
 			sc.Steps = append(sc.Steps, Step{At: t + 1, Act: "member", S: pick(r, "addvoter", "addnonvoter", "demote", "remove"), N: []int{r.Intn(p.N())}})
 		case 3:
-			sc.Steps = append(sc.Steps, Step{At: t + 1, Act: "transfer", N: []int{-1}})
+			if r.Intn(2) == 0 {
+				sc.Steps = append(sc.Steps, Step{At: t + 1, Act: "transfer", N: []int{-1}})
+			} else {
+				// a transfer that stays in progress for an election timeout: its target is unreachable
+				sc.Steps = append(sc.Steps, Step{At: t, Act: "transfer-to-cut"})
+			}
 		case 4:
 			cutLeader = true
 			// the leader is cut off and keeps appending: when the next leader restores, the index it
